@@ -22,7 +22,27 @@ def p_hexpr(t: Toks):
     return ("A", p_hexpr(t), p_hexpr(t))
 
 
-def ev(e, mode, pool=None):
+class HTMLa(HTML):
+    """subclasses of HTML (a library's own marker types): trusted markup like any HTML"""
+
+
+class HTMLb(HTML):
+    pass
+
+
+class HTMLa2(HTMLa):
+    pass
+
+
+_SUBS = [HTMLa, HTML, HTMLb, HTMLa2, HTML, HTMLa]
+
+
+def ev(e, mode, pool=None, ctr=None):
+    if e[0] == "L" and mode in ("+sub", "+=sub") and e[1] == "h":
+        # the k-th HTML operand is an instance of a subclass of HTML, cycling through siblings, the base class and a
+        # sub-subclass: `isinstance(x, HTML)` holds for all of them
+        ctr[0] += 1
+        return _SUBS[ctr[0] % len(_SUBS)](e[2])
     if e[0] == "L":
         if pool is not None:
             # aliasing mode: operands with the same kind and text are ONE object, as when a fragment is reused
@@ -31,9 +51,9 @@ def ev(e, mode, pool=None):
                 pool[key] = {"p": lambda s: s, "h": HTML, "o": Obj}[e[1]](e[2])
             return pool[key]
         return {"p": lambda s: s, "h": HTML, "o": Obj}[e[1]](e[2])
-    a = ev(e[1], mode, pool)
-    b = ev(e[2], mode, pool)
-    if mode in ("+=", "+=alias"):
+    a = ev(e[1], mode, pool, ctr)
+    b = ev(e[2], mode, pool, ctr)
+    if mode in ("+=", "+=alias", "+=sub"):
         a += b
         return a
     return a + b
@@ -44,7 +64,7 @@ def _hexpr(t: Toks) -> str:
     mode = t.next()
     e = p_hexpr(t)
     pool = {} if mode == "+=alias" else None
-    v = ev(e, mode, pool)
+    v = ev(e, mode, pool, [0])
     if pool is not None:
         # `x += y` must build a new value: every operand object still has to be what it was
         for (kind, text), obj in pool.items():
